@@ -61,7 +61,19 @@ def run_check(module, case):
     """check one case; exceptions escaping from inside mpmath are violations, exceptions of the
     harness itself are harness errors"""
     try:
-        res = module.check_case(case)
+        with time_limit(getattr(module, "CASE_TIMEOUT", 120.0)):
+            res = module.check_case(case)
+    except CaseTimeout:
+        # A wall-clock limit is normally only a safety net (inconclusive).  Modules whose every case is a
+        # micro-second integer kernel may declare HANG_IS_VIOLATION: there a case that does not finish within
+        # CASE_TIMEOUT (>= 10^5 times the normal cost) is reported as a hang.
+        res = R()
+        if getattr(module, "HANG_IS_VIOLATION", False):
+            res.bad("hang", "case did not finish within %.0f s: %s" % (getattr(module, "CASE_TIMEOUT", 120.0),
+                                                                     json.dumps(case, default=str)[:600]))
+        else:
+            res.inconclusive = True
+        return res
     except HarnessError:
         raise
     except RecursionError:
@@ -232,12 +244,17 @@ class time_limit:
 
     def __enter__(self):
         import signal
+        self._t0 = time.time()
+        self._outer = signal.getitimer(signal.ITIMER_REAL)[0]      # remaining time of an enclosing limit
         self._old = signal.signal(signal.SIGALRM, self._handler)
-        signal.setitimer(signal.ITIMER_REAL, self.seconds)
+        lim = self.seconds if not self._outer else min(self.seconds, self._outer)
+        signal.setitimer(signal.ITIMER_REAL, lim)
         return self
 
     def __exit__(self, et, ev, tb):
         import signal
         signal.setitimer(signal.ITIMER_REAL, 0)
         signal.signal(signal.SIGALRM, self._old)
+        if self._outer:
+            signal.setitimer(signal.ITIMER_REAL, max(0.01, self._outer - (time.time() - self._t0)))
         return False
